@@ -6,6 +6,7 @@ use std::{cell::RefCell, collections::VecDeque, io::Write as _, pin::Pin, proces
 use cucumber::{Cucumber, Parser, Writer, cli, runner, writer};
 use futures::{StreamExt as _, stream};
 use serde_json::{Value, json};
+use tracing_subscriber::{Layer as _, filter::{LevelFilter, Targets}, fmt::format::{DefaultFields, Format}, layer::SubscriberExt as _};
 use vh::{analysis::Analysis, evrec::Item, exec, oracles_trace, report::Tally, spec, world::{self, TW}};
 
 /// Hands the prepared stream out once; cloneable, so that the whole `Cucumber` value is.
@@ -36,13 +37,33 @@ fn single(seed: u64, idx: u64) -> Tally {
     case.cfg.custom_which = false;
     world::reset(case.plan.clone(), case.world_plan.clone(), case.world_gates);
     world::with_rs(|rs| rs.emit_logs = true);
+    // how the user's subscriber is configured:
+    //   0: `init_tracing()`
+    //   1: only `WARN` and above get through (the program logs at `WARN`/`ERROR`)
+    //   2: only the program's own targets get through, i.e. the library's own spans are disabled:
+    //      no line can be attributed then, and each one goes to every running scenario
+    let tmode = match idx % 7 {
+        5 => 1,
+        6 => 2,
+        _ => 0,
+    };
+    world::with_rs(|rs| rs.log_loud = tmode == 1);
     let (parser, shared) = exec::parser_for(&case);
     let sink = Push::default();
     let opts = cli::Opts::<cli::Empty, runner::basic::Cli, cli::Empty, cli::Empty> { runner: exec::runner_cli(&case.cfg), ..Default::default() };
     // The facade's type depends on which hooks are set: one arm per combination.
     macro_rules! facade {
         ($r:expr) => {
-            Cucumber::<TW, P, (), _, Push, cli::Empty>::custom(P(std::rc::Rc::new(std::cell::RefCell::new(Some(parser)))), $r, sink.clone()).with_cli(opts).init_tracing()
+{
+            let c = Cucumber::<TW, P, (), _, Push, cli::Empty>::custom(P(std::rc::Rc::new(std::cell::RefCell::new(Some(parser)))), $r, sink.clone()).with_cli(opts);
+            match tmode {
+                0 => c.init_tracing(),
+                1 => c.configure_and_init_tracing(DefaultFields::new(), Format::default(), |layer| tracing_subscriber::registry().with(LevelFilter::WARN.and_then(layer))),
+                _ => c.configure_and_init_tracing(DefaultFields::new(), Format::default(), |layer| {
+                    tracing_subscriber::registry().with(Targets::new().with_target("vh", tracing::Level::INFO).with_target("vt", tracing::Level::INFO).and_then(layer))
+                }),
+            }
+            }
         };
     }
     // every 5th run runs a clone of the fully configured `Cucumber` value (the original is dropped)
@@ -74,8 +95,8 @@ fn single(seed: u64, idx: u64) -> Tally {
         if let Some(n) = cfg.b_retry {
             c = c.retries(n);
         }
-        if let Some(d) = cfg.b_retry_after_ms {
-            c = c.retry_after(std::time::Duration::from_millis(d));
+        if let Some(d) = cfg.b_retry_after_us {
+            c = c.retry_after(std::time::Duration::from_micros(d));
         }
         if let Some(f) = &cfg.b_filter {
             c = c.retry_filter(f.parse::<cucumber::gherkin::tagexpr::TagOperation>().expect("tagexpr"));
@@ -153,7 +174,15 @@ fn single(seed: u64, idx: u64) -> Tally {
     t.count("runs_configured_through_the_cucumber_facade", u64::from(through_facade));
     t.count("runs_of_a_cloned_cucumber_value", u64::from(clone_facade));
     t.count("c20.deferred_in_span_logs_fired", out.qpoints.iter().filter(|q| q.decision.contains("deferred")).count() as u64);
-    oracles_trace::c20(&an, &mut t, idx);
+    t.count("lines_logged_outside_any_span_from_inside_callbacks", world::with_rs(|rs| rs.helper_logs.min(40)));
+    t.count("c20.runs_with_a_warn_level_filter", u64::from(tmode == 1));
+    t.count("runs_with_the_librarys_own_spans_filtered_out", u64::from(tmode == 2));
+    if tmode != 2 {
+        oracles_trace::c20(&an, &mut t, idx);
+    } else {
+        let late = world::with_rs(|rs| rs.late_ids.clone());
+        oracles_trace::c20_unattributed(&an, &mut t, idx, &late);
+    }
     // the same real run also feeds the runner oracles: this is the only workload
     // in which the runner is compiled with its `tracing` code paths
     vh::oracles_run::check_all(&an, &mut t, idx);
